@@ -35,9 +35,11 @@ FixedBuf(c) ==
   LET do  == c.fixed[1]
       deo == c.fixed[2]
       n   == Max(do, deo) + 8
-      pend == AddN(c.pkt.base, Len(c.pkt.bytes))
+      \* (an empty packet has no first byte: both slots hold null, under every engine - C09)
+      pbeg == IF Len(c.pkt.bytes) = 0 THEN Zero ELSE c.pkt.base
+      pend == AddN(pbeg, Len(c.pkt.bytes))
   IN [k \in 1..n |-> IF k > deo /\ k <= deo + 8 THEN pend[k - deo]
-                     ELSE IF k > do /\ k <= do + 8 THEN c.pkt.base[k - do]
+                     ELSE IF k > do /\ k <= do + 8 THEN pbeg[k - do]
                      ELSE 0]
 
 \* region images <<pkt, mbuf, stack, allow...>> and bases
